@@ -285,6 +285,13 @@ class MirGen:
                 if r.chance(1, 5):
                     x = self.fresh()
                     one, zero = (['i', 1], ['i', 0]) if r.chance(1, 2) else (['i', 0], ['i', 1])
+                    if ints and r.chance(1, 2):
+                        # empty branches choosing between a VARIABLE and 0 / 1: not a boolean operation on ints
+                        v = ['v', r.pick(ints)]
+                        one, zero = r.pick([(v, ['i', 0]), (['i', 1], v), (['i', 0], v), (v, ['i', 1])])
+                        out.append(['if', c, [], [], [[x, one, zero]]])
+                        ints.append(x)
+                        continue
                     out.append(['if', c, [], [], [[x, one, zero]]])
                     ints.append(x)
                     bools.append(x)
